@@ -33,6 +33,9 @@ def run(sh):
     n = 400 if sh.tier == 'quick' else 60000
     engine_line.run_profile(sh, 'C08', 'routing', n * 3 // 4, MONITORS, nontrivial)
     engine_line.run_profile(sh, 'C08', 'general', n // 4, MONITORS, nontrivial)
+    # collecting sinks whose collected_parts list is replaced by a fresh one between two runs or from an event
+    engine_line.run_profile(sh, 'C08', 'routing', n // 4, MONITORS, nontrivial, prefix='fresh_lists_',
+                            overrides={'p_new_collected': 0.9, 'p_collect': 1.0, 'p_split': 0.7}, tag='freshlists')
     # fan-out models aimed at the idle-longest rule
     from .. import core, modelgen
     pol = ['prng', 'fifo', 'lifo', 'const']
